@@ -111,6 +111,20 @@ ADDED.update({
     "w8_C16": "exception values bound per pair class (ExcFor); free cysteine at the buried histidine (S195C)",
     "w8_C18": "look-ups interleaved with the parsed lines (a look-up is an observation)",
 })
+ADDED.update({
+    "w9_C01": "C01_OneResiduePerPosition on point mutants with a third conformation that lacks the position (alt-locs, models)",
+    "w9_C02": "conformations that disagree on which member of a covalently coupled system titrates (4DFR, ASP A 27 given a second location)",
+    "w9_C04": "translations that put the structure at the edge of the coordinate field (max 9999.9 / min -999.9)",
+    "w9_C08": "same-type twins in two conformations",
+    "w9_C11": "two distinct atoms on one position (d = 0 admitted in the placement generator)",
+    "w9_C13": "one invocation with several structures (propka.run.main -c X first -f second)",
+    "w9_C14": "IonPairKept: iterative acid-base pairs with one member listed, decided by the Ion rule of Iterative.tla at the fixed point",
+    "w9_C15": "coupled constructs under -d (display of the alternative state) in the marks / stars invariants",
+    "w9_C16": "shared-determinant parameter variants on structures with covalently coupled systems (4DFR, chain starts)",
+    "w9_C17": "a fragment lying across x = -100 and y = +1000 (coordinates that need all eight columns)",
+    "w9_C19": "serials that are all zero / zero-based per model",
+    "w9_C20": "axes a rounding error away from a coordinate axis or plane (component 1e-9 ... 1e-100)",
+})
 ROUND = {"C": 1, "w2": 2, "w3": 3, "w4": 4, "w5": 5, "w6": 6, "w7": 7, "w8": 8, "w9": 9}
 
 
